@@ -54,6 +54,29 @@ NOTES = {
     "C18-m5": "missed by the first version of the check; caught after the keys %41, 100%25, a%2Fb, q%20r were added to the key pool",
     "C12-m5": "missed by the first version of the check (C12 only called the library); caught after the C12 cli leg (-f merge -p, 35% with -yaml, patches holding 2^63, DEL, NEL, U+FFFE) was added",
     "C12-m6": "missed by the first version of the check; caught by the C12 cli leg (per cent signs in patch values and member names)",
+    "C03-m7": "missed by the first version of the check (every hunk had one context line per side, as Diff writes them); caught after 12% of the C03 cases widen each list hunk to two context lines per side (the second one being the [ / ] marker where the array ends there)",
+    "C04-m7": "missed by the first version of the check; caught after gen 'hash shapes' were added: a key that spells key + content-code(value) + key of a two-member object (numbers whose 8-byte code is valid UTF-8), neighbouring strings split at another place",
+    "C04-m8": "missed by the first version of the check; caught after pairs of two-decimal numbers whose 64-bit content codes share their first four bytes (found by a birthday search at start-up) were added, in exchanged order",
+    "C05-m7": "missed by the first version of the check (the C05 cli leg never used stdin); caught after 25% of the runs pass the second document on standard input and 12% of the pairs carry a common 70 KB member (every input line longer than 64 KB)",
+    "C06-m7": "missed by the first version of the check (long arrays were flat); caught after long-in-long arrays were added (60-180 scalars around one element that holds another 60-180 element array changed in one place)",
+    "C06-m8": "NOT counted for C06: the Diff value is untouched, only DiffElement.Render writes the context line wrongly (a per cent sign in it); that is C02's subject and C02 reports it (quick, 14 violations)",
+    "C07-m7": "missed by the first version of the check (SET and MULTISET were never given together); caught after the option sets set+mset / mset+set were added to C01, C04, C05, C07, C14, C17",
+    "C07-m8": "NOT counted: the property quantifies over {list, SET, MULTISET, SetKeys, MERGE}; under Precision(eps) the unchanged tree already emits hunks for numbers that are Equal within eps, so no check of C07 can be stated there",
+    "C08-m8": "missed by the first version of the check (key values were never null, and no look-alike member stood in front of the addressed one); caught after explicit null key values and the perturbations 'look-alike with one key different / lacking one key in front of the addressed member' were added",
+    "C09-m7": "NOT counted for C09 (no input shows it, only concurrent calls); it is a purity defect and C15 reports it since the determinism leg also calls Diff / Render* from 8 goroutines at once (quick, 4 violations)",
+    "C09-m8": "missed by the first version of the check (documents always came from a reader); caught after the C09 'patched' leg was added (a' = Patch(A, A.Diff(X)) with arrays emptied, diffed against B and translated)",
+    "C10-m8": "NOT counted: the triggering file is not a JSON Patch document (text after the closing bracket), which is outside the statement's quantifier; the unchanged tree likewise reads the text null as the empty patch. The file entry points are now exercised by the C10 / C12 'file' legs on documents",
+    "C11-m7": "missed by the first version of the check (the option list never held Precision(0), which both binaries always append); caught after merge+prec:0, set+merge+prec:0, mset+merge+prec:0 were added",
+    "C11-m8": "missed by the first version of the check; caught after array members that are strings with a common prefix of 57 ... 70000 bytes were added",
+    "C12-m8": "missed by the first version of the check (YAML targets were written by the harness's own emitter only); caught after half of the -yaml runs use jd's own Yaml() text, with multi-line and blank-ended strings in the target; C16 catches it too",
+    "C13-m8": "missed by the first version of the check (no -o in the C13 cli leg); caught after -o with writable, missing-directory, directory and empty paths was added",
+    "C14-m8": "missed by the first version of the check; caught after merge-mode pairs get a changed member from a list of values on which JSON and YAML readers disagree (2^63, DEL, NEL, U+FFFE, -0) and such cases run with -yaml more often",
+    "C15-m7": "NOT counted: needs a Diff value assembled by hand on which RenderMerge fails half way; the property quantifies over a.Diff(b, options) and diffs read from merge patches. (On such hand-assembled diffs the unchanged tree itself lets RenderMerge write into document b through a shared node.)",
+    "C15-m8": "caught by the first version of the check that had wide objects (64-140 keys), added in this round together with the concurrent phase",
+    "C16-m7": "missed by the first version of the check: the input is in the class of known finding D19, whose predicate suppressed every failure on blank root strings; the predicate now also requires the observed failure mode (reads back as the empty document)",
+    "C17-m7": "missed by the first version of the check; caught after set+mset / mset+set were added to the v1 option sets",
+    "C17-m8": "missed by the first version of the check; caught after lists of 60-150 numbers with a few moved by less than eps were added to the precision pairs",
+    "C18-m8": "missed by the first version of the check; caught after the C18 'patched' leg was added (a' from a v1 strict Patch, then merge / patch renderings of a'.Diff(b) evaluated and read back)",
     "C14-m2": "missed by the first version of the check (stdin was always a pipe); caught after a run with stdin redirected from a regular file was added",
 }
 
